@@ -134,6 +134,10 @@ def normalize_year(y, m, d):
         y += y_plus
         m -= y_plus * 12
 
+    if y < 1:
+        # before the first year of the calendar, there is no such date
+        return y, m, d
+
     if d <= 0:
         d += max_days_in_month(m, y)
         m -= 1
@@ -512,6 +516,8 @@ def months_inc(start_date, months, eomonth=False):
     else:
         # clip the day to the length of the target month
         y2, m2, _ = normalize_year(y, m + months, 1)
+        if y2 < 1:
+            return NUM_ERROR
         return date(y, m + months, min(d, max_days_in_month(m2, y2)))
 
 
